@@ -548,7 +548,13 @@ impl<Context: ServerContext> HttpRouter<Context> {
             if let Some(hdrs) = err.headers.as_deref_mut() {
                 hdrs.reserve(node.methods.len());
             }
-            for allowed in node.methods.keys() {
+            //
+            // Only methods with a handler for the requested version are
+            // currently supported by this resource.
+            for (allowed, handlers) in node.methods.iter() {
+                if find_handler_matching_version(handlers, version).is_none() {
+                    continue;
+                }
                 err.add_header(http::header::ALLOW, allowed)
                     .expect("method should be a valid allow header");
             }
